@@ -14,8 +14,8 @@ def build_scenarios(tier, chk, per_hist_classes=2, budget=None):
     names = list(drv.list_classes().keys())
     rr = rng("c16-assign")
     rr.shuffle(hists)
-    if tier == "thorough" and len(hists) > 60000:
-        hists = hists[:60000]
+    if tier == "thorough" and len(hists) > 10000:          # (60 000 histories needed 30 GB of records: the kernel killed the check)
+        hists = hists[:10000]
     budget = budget or (10 if tier == "quick" else 14)
     cuts = [-1000, 0, 250, 500, 1000]
     scns = []
